@@ -812,7 +812,8 @@ PATTERNS = ['free', 'ge0', 'le0', 'lower', 'upper', 'both', 'fixed0', 'fixed', '
             'ge0_upper']
 
 
-def gen_lp(rng, tier='quick', ints=False, outcome='optimal', patterns=None, front=None):
+def gen_lp(rng, tier='quick', ints=False, outcome='optimal', patterns=None, front=None,
+           many_rows=False):
     """Continuous (or mixed-integer) LP that is feasible and bounded by construction
     (a primal point and a dual certificate are built first), with every bound pattern.
     outcome: 'optimal' | 'infeasible' | 'unbounded' (by construction)."""
@@ -887,9 +888,9 @@ def gen_lp(rng, tier='quick', ints=False, outcome='optimal', patterns=None, fron
                        'pattern': pat})
     lin = []
     c = rl - ru
-    nrows = int(rng.integers(1, 4))
+    nrows = int(rng.integers(1, 4)) if not many_rows else int(rng.integers(5, 10))
     for _ in range(nrows):
-        k = int(rng.integers(1, 4))
+        k = int(rng.integers(1, 4)) if not many_rows else int(rng.integers(2, 6))
         A = np.round(rng.uniform(-2, 2, (k, nx)), 2) * (rng.random((k, nx)) < 0.7)
         sense = ['le', 'ge', 'eq'][int(rng.integers(3))]
         y = rng.uniform(0, 1.5, k) * (rng.random(k) < 0.7)
